@@ -190,6 +190,12 @@ class C09(Check):
     def _decode(self, job, lp, lq, log):
         dyn = sys.modules[DYN]
         S = job['S']
+        if True:
+            # leftover-state probe: an earlier, unrelated decoding in the same process (other track, other candidate labels, fixed tables)
+            wtr = make_track(3)
+            wst = [['w%d_%d' % (k, l) for l in range(2)] for k in range(3)]
+            whmm = dyn.HMM(lambda t, k: wst[k], lambda a, b, k, t: -1.0 - 0.5 * (a[-1] != b[-1]), lambda st, y, k, t: -0.25 * int(st[-1]), log=True)
+            whmm.estimate(wtr, 'yobs', mode=dyn.MODE_OBS_AS_SCALAR, verbose=0)
         tr = make_track(len(S))
         mdl = Model(S, lp, lq, tr, job.get('variant_model'))
         hmm = dyn.HMM(mdl.states, mdl.Q, mdl.P, log=log)
